@@ -341,9 +341,31 @@ where
         // FIXME: Use `Box::into_non_null` once stable
         let memo = NonNull::from(Box::leak(Box::new(memo)));
 
+        #[cfg(salsa_verif)]
+        if crate::verif_trace::is_enabled() {
+            let ord = crate::verif_trace::memo_published(memo.as_ptr() as usize);
+            crate::verif_trace::emit_with("memo", "publish", |_, o| {
+                o.push_str(&format!(
+                    "{} m{ord}",
+                    crate::verif_trace::K(self.database_key_index(id))
+                ))
+            });
+        }
+
         if let Some(old_value) =
             self.insert_memo_into_table_for(zalsa, id, memo, memo_ingredient_index)
         {
+            #[cfg(salsa_verif)]
+            if crate::verif_trace::is_enabled() {
+                let ord = crate::verif_trace::memo_ordinal(old_value.as_ptr() as usize);
+                crate::verif_trace::emit_with("memo", "defer", |_, o| {
+                    o.push_str(&format!(
+                        "{} {}",
+                        crate::verif_trace::K(self.database_key_index(id)),
+                        crate::verif_trace::OptOrd(ord)
+                    ))
+                });
+            }
             // In case there is a reference to the old memo out there, we have to store it
             // in the deleted entries. This will get cleared when a new revision starts.
             //
@@ -503,6 +525,19 @@ where
             )
         });
 
+        #[cfg(salsa_verif)]
+        if crate::verif_trace::is_enabled() {
+            for addr in self.deleted_entries.verif_addrs() {
+                let ord = crate::verif_trace::memo_freed(addr);
+                crate::verif_trace::emit_with("memo", "free", |_, o| {
+                    o.push_str(&format!(
+                        "{} {}",
+                        self.index.as_u32(),
+                        crate::verif_trace::OptOrd(ord)
+                    ))
+                });
+            }
+        }
         self.deleted_entries.clear();
     }
 
